@@ -633,7 +633,8 @@ def gen_data_query(rng, schema, ds, opts=None):
     if rng.random() < 0.5:
         out_cols.append("peer_key")
     # the columns lmd computes by looking the members / services up in another table (their states)
-    state_lists = {"hosts": ["services_with_state", "services_with_info"], "hostgroups": ["members_with_state"], "servicegroups": ["members_with_state"]}
+    state_lists = {"hosts": ["services_with_state", "services_with_info", "comments_with_info", "downtimes_with_info"], "hostgroups": ["members_with_state"],
+                   "servicegroups": ["members_with_state"], "services": ["comments_with_info", "downtimes_with_info", "host_comments_with_info", "host_downtimes_with_info"]}
     if table in state_lists and rng.random() < 0.35:
         out_cols.insert(rng.randrange(1, len(out_cols) + 1), rng.choice(state_lists[table]))
     lines = ["GET " + table, "Columns: " + " ".join(out_cols)]
